@@ -45,10 +45,10 @@ func generate(run func(string, bool) string, rng *xvlib.Rng, full bool, out *xvl
 				k = 4
 			} else {
 				// quick: every rule pair with all multisets of size <= 2; a seeded sample of the pairs with size <= 4 / <= 3
-				switch rng.Intn(40) {
+				switch rng.Intn(12) {
 				case 0:
 					k = 4
-				case 1, 2, 3:
+				case 1, 2, 3, 4:
 					k = 3
 				}
 			}
